@@ -226,6 +226,7 @@ class OnlineVariance(object):
     
     def update(self,value,weight=1.0):
         self.count+=1
+        wcount_old = self.wcount
         self.wcount+=weight
         self.wcount2+=weight*weight
 
@@ -238,9 +239,14 @@ class OnlineVariance(object):
         mean_old = self.mean
         try:
             self.mean = mean_old + (weight / self.wcount) * (value - mean_old)
+            scale = weight * (wcount_old / self.wcount)
         except ZeroDivisionError:
             self.mean = value*0.0
-        self.M2 += weight * (value - mean_old) * (value - self.mean)
+            scale = 0.0
+        # Same quantity as weight*(value - mean_old)*(value - self.mean)
+        # but rounding can not make it negative (a negative M2 ends up
+        # as a NaN standard deviation)
+        self.M2 += scale * (value - mean_old)**2
 
     @property
     def variance(self):
